@@ -553,3 +553,94 @@ def rule_SN6(ctx, rep):
             else:
                 good, why = True, f'the {kind}imum is taken over all positions that can hold it after the pre-pass (checked for n = 1..11 by evaluating the slice bounds)'
         (rep.ok if good else rep.bad)('SN6', fn, call, why)
+
+
+# ---------------------------------------------------------------------------------- CP1
+CP1_INPLACE_BY_CONTRACT = {
+    'random::shuffle': 'documented to shuffle its argument in place, like random.shuffle',
+}
+MUTATORS = ('append', 'extend', 'pop', 'insert', 'reverse', 'sort', 'remove', 'clear')
+
+
+def _param_mutations(fn, pm):
+    """{parameter: first statement} for the parameters whose *incoming* object the function modifies in place: an element / slice
+    store, an augmented element assignment or a mutating method call on a name that the caller's value can still reach there."""
+    out = {}
+    a = fn.node.args
+    params = [x.arg for x in a.posonlyargs + a.args + a.kwonlyargs if x.arg not in ('self', 'cls')]
+    for s in iter_nodes(fn.node):
+        tg = []
+        if isinstance(s, ast.Assign):
+            for t in s.targets:
+                tg += [tt for tt in (t.elts if isinstance(t, (ast.Tuple, ast.List)) else [t]) if isinstance(tt, ast.Subscript)]
+        elif isinstance(s, ast.AugAssign) and isinstance(s.target, ast.Subscript):
+            tg = [s.target]
+        elif isinstance(s, ast.Delete):
+            tg = [t for t in s.targets if isinstance(t, ast.Subscript)]
+        elif isinstance(s, ast.Expr) and isinstance(s.value, ast.Call) and isinstance(s.value.func, ast.Attribute) and s.value.func.attr in MUTATORS:
+            tg = [s.value.func]
+        for t in tg:
+            if isinstance(t.value, ast.Name) and t.value.id in params and t.value.id not in out:
+                if any(d[2] == 'param' for d in astq.reaching_definitions(fn.node, t.value.id, s, pm)):
+                    out[t.value.id] = s
+    return out
+
+
+def rule_CP1(ctx, rep, scope=None):
+    """the caller's list is never modified: a public list operation of the runtime that works in place (element stores, slice
+    stores, pop / append ..) does so on a copy -- on every path the parameter is re-bound (x = x[:], list(x), [x]) before the first
+    in-place statement, and before it is handed to a private helper that modifies its argument in place (_sort, _convert, ..)."""
+    model = ctx.model
+    summ = {}
+    for k, fn in model.funcs.items():
+        if fn.module in ('runtime', 'random', 'statistics', 'seclists', 'mpctools') and isinstance(fn.node, (ast.FunctionDef, ast.AsyncFunctionDef)):
+            summ[k] = (_param_mutations(fn, parents(fn.node)), fn)
+    n = 0
+    for k, (muts, fn) in sorted(summ.items()):
+        name = fn.qualname.split('.')[-1]
+        if name.startswith('_') or fn.module != 'runtime' and k not in CP1_INPLACE_BY_CONTRACT and fn.module not in ('random', 'statistics', 'mpctools'):
+            continue
+        if '.' in fn.qualname and not fn.qualname.startswith('Runtime.'):
+            continue
+        if scope is not None and name not in scope:
+            continue
+        if k in CP1_INPLACE_BY_CONTRACT:
+            continue
+        pm = parents(fn.node)
+        a = fn.node.args
+        params = [x.arg for x in a.posonlyargs + a.args + a.kwonlyargs if x.arg not in ('self', 'cls')]
+        found = dict(muts)
+        # handing the caller's object to a private helper that modifies that argument in place
+        for c in iter_nodes(fn.node):
+            if isinstance(c, ast.Call) and isinstance(c.func, ast.Attribute) and isinstance(c.func.value, ast.Name) and c.func.value.id == 'self' and c.func.attr.startswith('_'):
+                tk = f'{fn.module}::Runtime.{c.func.attr}'
+                if tk not in summ:
+                    continue
+                tmuts, tfn = summ[tk]
+                ta = tfn.node.args
+                tparams = [x.arg for x in ta.posonlyargs + ta.args if x.arg not in ('self', 'cls')]
+                for i, arg in enumerate(c.args):
+                    if i < len(tparams) and tparams[i] in tmuts and isinstance(arg, ast.Name) and arg.id in params and arg.id not in found:
+                        if any(d[2] == 'param' for d in astq.reaching_definitions(fn.node, arg.id, c, pm)):
+                            found[arg.id] = astq.enclosing_stmt(c, pm)
+        touched = [p for p in params if any(isinstance(x, ast.Name) and x.id == p for s_ in iter_nodes(fn.node) for x in ([s_.value.func.value] if isinstance(s_, ast.Expr) and isinstance(s_.value, ast.Call) and isinstance(s_.value.func, ast.Attribute) and s_.value.func.attr in MUTATORS else []))]
+        stores = [s for s in iter_nodes(fn.node) if (isinstance(s, ast.Assign) and any(isinstance(tt, ast.Subscript) and isinstance(tt.value, ast.Name) and tt.value.id in params
+                                                                                         for t in s.targets for tt in (t.elts if isinstance(t, (ast.Tuple, ast.List)) else [t])))
+                  or (isinstance(s, ast.AugAssign) and isinstance(s.target, ast.Subscript) and isinstance(s.target.value, ast.Name) and s.target.value.id in params)]
+        helper_calls = [c for c in iter_nodes(fn.node) if isinstance(c, ast.Call) and isinstance(c.func, ast.Attribute) and isinstance(c.func.value, ast.Name)
+                        and c.func.value.id == 'self' and f'{fn.module}::Runtime.{c.func.attr}' in summ and summ[f'{fn.module}::Runtime.{c.func.attr}'][0]
+                        and any(isinstance(a_, ast.Name) and a_.id in params for a_ in c.args)]
+        if not (stores or touched or helper_calls):
+            if scope is not None:
+                n += 1
+                rep.ok('CP1', fn, fn.qualname, 'no in-place statement on a parameter, here or in a private helper it is handed to', fn.node)
+            continue
+        n += 1
+        if found:
+            p, st = sorted(found.items())[0]
+            rep.bad('CP1', fn, st, f'the list passed as `{p}` is modified in place (here or in the private helper it is handed to) on a path on which `{p}` is still the '
+                    'caller\'s object: the caller\'s data changes under its hands (and, with deferred evaluation, under later operations that still use it)')
+        else:
+            rep.ok('CP1', fn, (stores + [astq.enclosing_stmt(c, pm) for c in helper_calls])[0] if (stores or helper_calls) else fn.qualname,
+                   'in-place work happens on a copy: the parameter is re-bound on every path before the first in-place statement', fn.node)
+    return n
